@@ -49,6 +49,7 @@ type Scenario struct {
 	Twins      bool       `json:"twins,omitempty"`       // parallel: pairs 0 and 1 sign the very same message at the same instant under the same signer name and key tag - with different keys (a rollover); each key's device takes a scheduling point inside its Sign
 	Flaky      int        `json:"flaky,omitempty"`       // the key is a device that fails its first n requests (a token that lost its session, a throttled KMS) and works from then on
 	ThirdParty int        `json:"third_party,omitempty"` // the message that travels is signed by an independent implementation (own digest construction, standard library crypto): 1 ECDSA with the smaller s, 2 with the larger s, 3 as it comes
+	Glitch     bool       `json:"glitch,omitempty"`      // the key is a device whose first answer is damaged (one bit of the signature flipped, no error): whatever Sign makes of that, the application signs again and that second attempt is judged like any other
 	EscOwner   int        `json:"esc_owner,omitempty"`   // the verifier's KEY record spells its owner with a decimal escape for one letter (\101 for e) - the same domain name, the matching key; 2: the signer spells its own name that way too
 	OwnSIG     bool       `json:"own_sig,omitempty"`     // the verifier checks the delivered octets with the SIG object that signed (the way the library's own test does): that object holds the genuine signature, whatever the octets say
 	Spare      bool       `json:"spare,omitempty"`       // the message's sections are slices with room to spare, and what lies in that room belongs to someone else (another message built on the same array)
@@ -118,6 +119,7 @@ func Gen(seed uint64, tier string) any {
 	sc.Poison = core.Chance(r, 20)
 	sc.Resign = core.Chance(r, 25)
 	sc.OwnSIG = core.Chance(r, 20)
+	sc.Glitch = sc.Flaky == 0 && core.Chance(r, 6)
 	if core.Chance(r, 6) {
 		sc.EscOwner = 1 + r.IntN(2)
 	}
@@ -161,7 +163,7 @@ func Gen(seed uint64, tier string) any {
 		case x < 92:
 			d.Fault = "parentname"
 		case x < 93:
-			d.Fault = core.Pick(r, "lookalike", "keyalg", "sigpad")
+			d.Fault, d.Frac = core.Pick(r, "lookalike", "keyalg", "keyalg", "sigpad", "appendrr", "appendrr"), r.IntN(1000)
 		case x < 94:
 			d.Fault = "damagedkey"
 		case x < 96:
@@ -441,8 +443,22 @@ func runIn(sc *Scenario, res *core.Result, verbose bool) {
 	if sc.Flaky > 0 {
 		signer = &flakySigner{Signer: kp.priv, failures: sc.Flaky}
 	}
+	if sc.Glitch {
+		signer = &glitchSigner{Signer: kp.priv}
+	}
 	signed, err := sig.Sign(signer, m)
 	res.Bump("oracle.Q1_sign")
+	if gs, ok := signer.(*glitchSigner); ok && gs.glitched {
+		// what the device returned was damaged, and Sign may have passed it on or noticed: not judged. The
+		// device is fine from now on, and so must everything be that has to do with this key
+		res.Bump("fault.signing_device_returned_a_damaged_signature")
+		if after, aerr := m.Pack(); aerr != nil || string(after) != string(packed) {
+			res.Fail("Q1", "sign-changed-message", "after a SIG.Sign whose key returned a damaged signature (err=%v) the caller's message packs differently: Sign altered the message it was given", err)
+			return
+		}
+		logf("first attempt with a glitching key: err=%v", err)
+		signed, err = sig.Sign(kp.priv, m)
+	}
 	if fs, ok := signer.(*flakySigner); ok && fs.failed > 0 {
 		// the key refused at least once during that call. Sign may report that or may have asked again,
 		// but what it returns without an error must be judged like any other output; if it gave up,
@@ -715,8 +731,10 @@ func runIn(sc *Scenario, res *core.Result, verbose bool) {
 			// the same key material published under another algorithm number: another KEY record, not the signer's
 			ak := dns.Copy(kp.key).(*dns.KEY)
 			switch ak.Algorithm {
-			case dns.RSASHA1, dns.RSASHA1NSEC3SHA1:
-				ak.Algorithm = dns.RSASHA256
+			case dns.RSASHA1:
+				ak.Algorithm = []uint8{dns.RSASHA1NSEC3SHA1, dns.RSASHA256}[d.Frac%2] // (5 and 7 are the same signature scheme under two numbers: two algorithms all the same)
+			case dns.RSASHA1NSEC3SHA1:
+				ak.Algorithm = []uint8{dns.RSASHA1, dns.RSASHA256}[d.Frac%2]
 			case dns.RSASHA256:
 				ak.Algorithm = dns.RSASHA512
 			case dns.RSASHA512:
@@ -744,6 +762,22 @@ func runIn(sc *Scenario, res *core.Result, verbose bool) {
 				tampered = true
 				desc = "signature halves prefixed with a zero octet"
 				res.Bump("fault.ecdsa_signature_padded")
+			}
+		case "appendrr":
+			// a record of the sender's choosing behind the SIG - with ARCOUNT raised to own up to it, or without:
+			// more than one octet altered, each of them a message octet
+			rr := []byte{0, 0, 1, 0, 1, 0, 0, 0, 60, 0, 4, 203, 0, 113, 66} // . 60 IN A 203.0.113.66
+			if d.Frac%3 == 1 {
+				rr = []byte{0, 0, 41, 16, 0, 0, 0, 0, 0, 0, 0} // an OPT record
+			}
+			if len(buf)+len(rr) <= 65535 {
+				buf = append(append([]byte(nil), buf...), rr...)
+				if d.Frac%3 != 2 {
+					binary.BigEndian.PutUint16(buf[10:], binary.BigEndian.Uint16(buf[10:])+1)
+				}
+				tampered = true
+				desc = fmt.Sprintf("a record appended behind the SIG (variant %d)", d.Frac%3)
+				res.Bump("fault.record_appended_behind_the_sig")
 			}
 		case "lookalike":
 			// a KEY whose owner only looks like the signer's name: a letter replaced by a code point
@@ -1095,6 +1129,22 @@ type yieldSigner struct {
 func (y *yieldSigner) Sign(rand io.Reader, digest []byte, opts crypto.SignerOpts) ([]byte, error) {
 	y.k.Yield("pair.device", y.idx)
 	return y.Signer.Sign(rand, digest, opts)
+}
+
+// glitchSigner is a key held by a device whose first answer comes back damaged - a bit flipped on the way, no error.
+type glitchSigner struct {
+	crypto.Signer
+	glitched bool
+}
+
+func (g *glitchSigner) Sign(rand io.Reader, digest []byte, opts crypto.SignerOpts) ([]byte, error) {
+	sig, err := g.Signer.Sign(rand, digest, opts)
+	if err == nil && !g.glitched && len(sig) > 4 {
+		g.glitched = true
+		sig = append([]byte(nil), sig...)
+		sig[len(sig)/2] ^= 0x10
+	}
+	return sig, err
 }
 
 // flakySigner is a key held by a device that refuses its first requests and serves the later ones.
